@@ -244,6 +244,14 @@ impl Report {
             "wall_ms": self.elapsed_ms(),
         })
     }
+    /// Writes the report and terminates the process immediately (used when unwinding / dropping live
+    /// objects of the code under test is not safe, e.g. a scope that never returns).
+    pub fn finish_and_exit(&mut self) -> ! {
+        let me = std::mem::replace(self, Report::new(&self.args.clone()));
+        let code = me.finish();
+        std::process::exit(code);
+    }
+
     /// Writes the report (and the sidecar with the distinct-case hashes) and returns the exit code
     /// (0 held, 1 violated, 2 inconclusive) - the driver recomputes the verdict from the files.
     pub fn finish(self) -> i32 {
@@ -290,6 +298,9 @@ pub fn install_quiet_panic_hook() {
         } else {
             "<non-string panic>".into()
         };
+        if std::env::var_os("VERIF_PANIC_TRACE").is_some() {
+            eprintln!("[panic] {loc}: {msg}");
+        }
         *LAST_PANIC.lock().unwrap_or_else(|e| e.into_inner()) = Some((loc, msg));
     }));
 }
